@@ -4,6 +4,7 @@ import (
 	"fmt"
 	"go/token"
 	"go/types"
+	"path/filepath"
 	"sort"
 	"strings"
 
@@ -519,6 +520,13 @@ func cloneValues(x *Ctx) {
 		for _, g := range fns {
 			for _, b := range g.Blocks {
 				for _, in := range b.Instrs {
+					if c, isCall := in.(*ssa.Call); isCall {
+						if h := c.Call.StaticCallee(); h != nil {
+							if hn := paths.FuncName(h); strings.HasPrefix(hn, "maps.Copy") || strings.HasPrefix(hn, "maps.Clone") {
+								n++ // the original's values handed over as they are
+							}
+						}
+					}
 					mu, ok := in.(*ssa.MapUpdate)
 					if !ok {
 						continue
@@ -713,4 +721,93 @@ func retainedConcat(x *Ctx, fns []*ssa.Function) {
 		}
 	}
 	x.C.Obl("C09.M2", "no-retained-concatenation", "-", fmt.Sprintf("none of the %d directly recursive functions stores a string / slice built on top of its own result", n), bad == "", dedupLines(bad))
+}
+
+// singleReads lists the calls of a Read([]byte) (int, error) method that are made once, outside a loop, by a
+// function that is not itself a Read method: one Read returns what one chunk of the stream holds, so a function
+// that fills a buffer of a known size with it succeeds or fails depending on how the bytes arrive.
+func singleReads(fns []*ssa.Function) []string {
+	var out []string
+	for _, f := range fns {
+		if len(f.Blocks) == 0 || f.Name() == "Read" {
+			continue
+		}
+		// blocks that lie on a cycle
+		inLoop := map[*ssa.BasicBlock]bool{}
+		for _, b := range f.Blocks {
+			seen := map[*ssa.BasicBlock]bool{}
+			stack := append([]*ssa.BasicBlock{}, b.Succs...)
+			for len(stack) > 0 {
+				c := stack[len(stack)-1]
+				stack = stack[:len(stack)-1]
+				if c == b {
+					inLoop[b] = true
+					break
+				}
+				if seen[c] {
+					continue
+				}
+				seen[c] = true
+				stack = append(stack, c.Succs...)
+			}
+		}
+		for _, b := range f.Blocks {
+			for _, in := range b.Instrs {
+				c, ok := in.(*ssa.Call)
+				if !ok {
+					continue
+				}
+				cc := c.Common()
+				var sig *types.Signature
+				name := ""
+				if cc.IsInvoke() {
+					name, sig = cc.Method.Name(), cc.Method.Type().(*types.Signature)
+				} else if h := cc.StaticCallee(); h != nil && h.Signature.Recv() != nil {
+					name, sig = h.Name(), h.Signature
+				}
+				if name != "Read" || sig == nil || sig.Params().Len() != 1 || sig.Results().Len() != 2 {
+					continue
+				}
+				if s, ok := sig.Params().At(0).Type().Underlying().(*types.Slice); !ok || s.Elem().String() != "byte" {
+					continue
+				}
+				if !inLoop[b] {
+					out = append(out, load.ShortName(f)+"@"+fmt.Sprint(c.Pos()))
+				}
+			}
+		}
+	}
+	return out
+}
+
+func noSingleReads(x *Ctx, S map[*ssa.Function]bool) {
+	var fns []*ssa.Function
+	for _, f := range x.P.ModuleFuncs() {
+		rel := strings.TrimPrefix(x.P.PkgPathOf(f), load.Module+"/")
+		if ioPkgs[rel] && x.P.IsLibrary(f) {
+			fns = append(fns, f)
+		}
+	}
+	bad := ""
+	for _, s := range singleReads(fns) {
+		i := strings.LastIndex(s, "@")
+		var pos token.Pos
+		fmt.Sscan(s[i+1:], (*int)(&pos))
+		bad += fmt.Sprintf("%s: %s fills a buffer with a single Read: the outcome depends on how the stream is chunked (io.ReadFull reads until the buffer is full)\n", x.P.Pos(pos), s[:i])
+	}
+	x.C.Obl("C18.R5", "no-single-read", "-", fmt.Sprintf("in the %d functions of the stream-handling packages a Read is made in a loop, by a Read method, or through io.ReadFull", len(fns)), bad == "" && len(fns) > 0, dedupLines(bad))
+	if canaryProg == nil {
+		cp, err := load.Load(load.Options{Dir: filepath.Join(x.VerifDir, "lint", "testdata", "canary"), Module: "canary"})
+		if err != nil {
+			x.C.Unresolved("C18.R5", "single-read-canary-load", "-", err.Error())
+			return
+		}
+		canaryProg = cp
+	}
+	got := map[string]bool{}
+	for _, s := range singleReads(canaryProg.ModuleFuncs()) {
+		n := s[:strings.LastIndex(s, "@")]
+		got[n[strings.LastIndex(n, ".")+1:]] = true
+	}
+	x.C.Obl("C18.R5", "no-single-read:canary", "lint/testdata/canary/stream/stream.go", "the seeded single Read into a sized buffer is flagged; io.ReadFull, a read loop and a wrapper's Read method are not", len(got) == 1 && got["Header"], fmt.Sprint(got))
 }
